@@ -101,6 +101,11 @@ pub fn for_property(prop: &str) -> Vec<Family> {
         "C10" => vec![f("isolate", "k objects blocked on gates that stay closed, pool maximum above the number of stalled threads, other objects must finish before the gates open", gen_isolate, Q, T)],
         "C11" => vec![f("pipe-in", "pipe_in with items arriving before/during/after polls, concurrent sync/desync on the target, the target dropped while the stream is open", gen_pipe_in, Q, T)],
         "C12" => vec![f("pipe-out", "pipe with depth 1..5, consumer reading by blocking and by single polls, producer pushing and closing", gen_pipe_out, Q, T)],
+        "C14" => vec![
+            f("mix", "all operation kinds; closures and captures carry scope canaries and drop probes", g_mix, Q / 8, T / 8),
+            f("fsync", "future_sync futures dropped at any point; their closures and futures must be gone with them", g_fsync, Q / 8, T / 8),
+            f("drop", "last owner dropped under load; no operation may touch the value afterwards", gen_drop, Q / 8, T / 8),
+        ],
         "C15" => vec![
             Family { name: "panic", what: "one operation panics (the position enumerates 10 kinds of operation x runner context); afterwards every kind of call on the panicked object, ordinary programs on healthy objects, and a capacity probe", gen: gen_panic, quick_runs: Q, thorough_runs: T, sweep_width: 10, gen_at: Some(g_panic_sweep) },
         ],
@@ -143,6 +148,7 @@ pub fn required_probes(prop: &str) -> &'static [&'static str] {
         "C15" => &["panics_injected", "panic_on_pool", "panic_on_caller", "calls_on_panicked"],
         "C16" => &["sweep_injections_fired"],
         "C17" => &["pool_threads_spawned"],
+        "C14" => &["fsync_drop_mid", "drops_by_pool", "try_busy"],
         _ => &[],
     }
 }
